@@ -22,6 +22,12 @@ Proof. repeat split; reflexivity. Qed.
 Theorem C12_no_global_state_written : Purity.package_global_stores = [].
 Proof. reflexivity. Qed.
 
+(* no function reachable from the validators and verifiers reads the clock, the environment, a source of randomness or the process
+   (datetime.now / utcnow / today, time.time, os.environ, os.getenv, random.*, os.getpid ...; re-read from the AST on every run):
+   together with the two certificates above, a verdict is a function of the arguments of the call *)
+Theorem C12_no_ambient_reads : Purity.ambient_reads = [].
+Proof. reflexivity. Qed.
+
 (* the certificate covers the five verifiers and every checkformat_* / is_* validator *)
 Theorem C12_certificate_covers :
   forallb (fun f => existsb (ustr_eqb f) Purity.analysed)
@@ -102,6 +108,7 @@ Proof. reflexivity. Qed.
 
 Print Assumptions C12_purity_certificate.
 Print Assumptions C12_no_global_state_written.
+Print Assumptions C12_no_ambient_reads.
 Print Assumptions C12_certificate_covers.
 Print Assumptions C12_deepcopy_fresh_and_equal.
 Print Assumptions C12_wrap_isolated.
